@@ -390,8 +390,9 @@ def execute(plan):
             raise Violation('no-progress', f'next() #{oi} took {sc.steps - s0} scheduler steps')
           # ---- sequential specification
           if o[0] == 'item':
-            if terminal and not closed:
-              raise Violation('item-after-termination', f'op {oi}: item {o[1]} after {terminal}; observed {obs}')
+            if terminal:
+              # (also after close(): once the consumer has been told that the iteration is over it stays over)
+              raise Violation('item-after-termination', f'op {oi}: item {o[1]} after {terminal}{" (closed)" if closed else ""}; observed {obs}')
             if o[1] != pos:
               raise Violation('wrong-item', f'op {oi}: got item {o[1]}, expected item {pos}; observed {obs}')
             if pos >= limit:
